@@ -15,6 +15,7 @@ def run(ctx):
     s = ctx['seed'] + 11
     return run_parts(ctx, [
         Part('projection', 'corr_proj', 'run', [s, 300 if q else 6000]),
+        Part('filter_wrapper_code', 'corr_filterwrappergen', 'run', [s, 120 if q else 2500], count_exceptions=False),
         Part('wrapper_code', 'corr_wrappergen', 'run', [s, 150 if q else 3000], count_exceptions=False),
         Part('join_loop_code', 'corr_joingen', 'run', [s, 150 if q else 3000], count_exceptions=False),
     ], RULE)
